@@ -11,4 +11,4 @@ trap 'rm -rf "$tmp"' EXIT
 rsync -a --exclude .git /repo/ "$tmp/"
 if ! (cd "$tmp" && patch -p1 -s --no-backup-if-mismatch < "$patch" >/dev/null 2>&1); then echo "PATCH-DOES-NOT-APPLY $patch"; exit 3; fi
 if ! (cd "$tmp" && GOFLAGS=-mod=readonly go build ./... 2>/dev/null); then echo "DOES-NOT-COMPILE $patch"; exit 4; fi
-bin/ergocheck -rules "$rules" -repo "$tmp" | grep -v ' discharged ' | sed "s#$tmp/##g"
+${ERGOCHECK:-bin/ergocheck} -rules "$rules" -repo "$tmp" | grep -v ' discharged ' | sed "s#$tmp/##g"
